@@ -153,6 +153,8 @@ def nested_mutables(obj, depth=3, prefix=()):
                 if is_struct(m):
                     yield p + (i,), m
                     yield from nested_mutables(m, depth - 1, p + (i,))
+                elif isinstance(m, etree._Element):
+                    yield p + (i,), m          # xml elements (extensions, reference parameters) are mutable members too
 
 
 def class_defaults(cls):
@@ -346,6 +348,12 @@ def domain(prop, depth=2):
         if isinstance(k, type) and issubclass(k, _enum.Enum):
             return [[list(k)[0]], list(k)[:2]]
         return [['a', 'b'], ['a']]
+    if cname == 'ExtensionNodeProperty':
+        def ext(i):
+            el = etree.Element(etree.QName('urn:verif:ext', f'Ext{i}'), attrib={'a': str(i)})
+            etree.SubElement(el, etree.QName('urn:verif:ext', 'Child')).text = f'c{i}'
+            return el
+        return [[ext(1)], [ext(1), ext(2)]]
     if cname in ('SubElementProperty', 'ContainerProperty', 'SubElementWithSubElementListProperty'):
         if depth <= 0:
             return []
